@@ -804,9 +804,61 @@ func runPolygon(c *vkit.Collector, rng *vkit.Rng, k int, withT bool) {
 	}
 	r := math.Pow(10, rng.Range(-4, 0))
 	var loopsPts [][]s2.Point
-	for j, m := range ns {
-		rr := r * math.Pow(0.5, float64(j))
-		loopsPts = append(loopsPts, starPoints(ctr, m, func(int) float64 { return rr }))
+	var ctrs []s2.Point // a point inside loop j by construction
+	multi := k%3 == 2
+	if !multi {
+		// nested: shell, hole, island around one centre
+		for j, m := range ns {
+			rr := r * math.Pow(0.5, float64(j))
+			loopsPts = append(loopsPts, starPoints(ctr, m, func(int) float64 { return rr }))
+			ctrs = append(ctrs, ctr)
+		}
+	} else {
+		// 2-5 disjoint top-level shells on a ring around ctr, their sizes in a random order
+		// (Polygon.Invert inverts the LARGEST shell and must keep the shells stored before
+		// it as well as after it), some carrying a hole, some holes an island
+		if r > 0.3 {
+			r = 0.3
+		}
+		cl = "multi-shell/" + cl
+		x, y := frame(ctr)
+		S := 2 + rng.Intn(4)
+		sizes := []float64{1, 0.6, 0.4, 0.3, 0.2}[:S]
+		for i := S - 1; i > 0; i-- { // shuffle
+			j := rng.Intn(i + 1)
+			sizes[i], sizes[j] = sizes[j], sizes[i]
+		}
+		per := tot / (2 * S)
+		if per < 3 {
+			per = 3
+		}
+		ns = nil
+		D := 2.5 * r
+		th0 := rng.Range(0, 2*math.Pi)
+		for i := 0; i < S; i++ {
+			th := th0 + 2*math.Pi*float64(i)/float64(S)
+			dir := x.Mul(math.Cos(th)).Add(y.Mul(math.Sin(th)))
+			ci := s2.Point{Vector: ctr.Mul(math.Cos(D)).Add(dir.Mul(math.Sin(D))).Normalize()}
+			ri := r * sizes[i]
+			add := func(rr float64) {
+				m := per + rng.Intn(3)
+				loopsPts = append(loopsPts, starPoints(ci, m, func(int) float64 { return rr }))
+				ctrs = append(ctrs, ci)
+				ns = append(ns, m)
+			}
+			add(ri)
+			if rng.Intn(2) == 0 { // hole
+				add(0.5 * ri)
+				if rng.Intn(2) == 0 { // island in the hole
+					add(0.25 * ri)
+				}
+			}
+		}
+		nl = len(loopsPts)
+		tot = 0
+		for _, m := range ns {
+			tot += m
+		}
 	}
 	mk := func() *s2.Polygon {
 		var ls []*s2.Loop
@@ -844,11 +896,33 @@ func runPolygon(c *vkit.Collector, rng *vkit.Rng, k int, withT bool) {
 	Pinv2.Invert()
 
 	var probes []s2.Point
-	for _, lp := range loopsPts {
-		probes = append(probes, loopProbes(rng, lcase{"poly", lp, &ctr}, cells)...)
+	for j, lp := range loopsPts {
+		pr := loopProbes(rng, lcase{"poly", lp, &ctrs[j]}, cells)
+		if len(pr) > 90/len(loopsPts) {
+			pr = pr[:90/len(loopsPts)]
+		}
+		probes = append(probes, pr...)
 	}
-	if len(probes) > 90 {
-		probes = probes[:90]
+	// Invert twice gives the polygon back; building from oriented loops gives the same polygon,
+	// and from the oppositely oriented loops its complement (PolygonFromOrientedLoops inverts
+	// internally)
+	Ptwice := mk()
+	Ptwice.Invert()
+	Ptwice.Invert()
+	mkOriented := func(flip bool) *s2.Polygon {
+		var ls []*s2.Loop
+		for j := 0; j < P.NumLoops(); j++ {
+			v := clone(P.Loop(j).Vertices())
+			if P.Loop(j).IsHole() != flip {
+				v = reversed(v)
+			}
+			ls = append(ls, s2.LoopFromPoints(v))
+		}
+		return s2.PolygonFromOrientedLoops(ls)
+	}
+	Por, PorC := mkOriented(false), mkOriented(true)
+	if withT {
+		runPolygonInvertT(c, k, P, Pinv)
 	}
 	in := newInterner()
 	var probeTerms []string
@@ -856,9 +930,10 @@ func runPolygon(c *vkit.Collector, rng *vkit.Rng, k int, withT bool) {
 		c.Eval(fmt.Sprintf("P%d/%d", k, pi), true)
 		// independent oracle: XOR over the loops, each by parity from the common centre (inside every loop)
 		want := false
-		okOracle := !antipodal(p, ctr)
-		for _, lp := range loopsPts {
-			want = want != parityFrom(lp, ctr, true, p)
+		okOracle := true
+		for j, lp := range loopsPts {
+			okOracle = okOracle && !antipodal(p, ctrs[j])
+			want = want != parityFrom(lp, ctrs[j], true, p)
 		}
 		brute := false
 		for j := 0; j < P.NumLoops(); j++ {
@@ -887,6 +962,15 @@ func runPolygon(c *vkit.Collector, rng *vkit.Rng, k int, withT bool) {
 		}
 		if Pinv2.ContainsPoint(p) == cp2 {
 			c.Violate("Polygon.Invert.afterBuild", "a polygon and its Invert() both contain / both miss a point", rep(p, "Invert after build"))
+		}
+		if okOracle && Pinv.ContainsPoint(p) == want {
+			c.Violate("Polygon.Invert.vsOracle", fmt.Sprintf("Invert() contains=%v, the polygon's oracle=%v", !want, want), rep(p, "Invert vs oracle"))
+		}
+		if Ptwice.ContainsPoint(p) != cp2 {
+			c.Violate("Polygon.Invert.twice", "Invert twice changes containment", rep(p, "double inversion"))
+		}
+		if okOracle && (Por.ContainsPoint(p) != want || PorC.ContainsPoint(p) == want) {
+			c.Violate("PolygonFromOrientedLoops", fmt.Sprintf("oriented loops=%v, oppositely oriented=%v, oracle=%v", Por.ContainsPoint(p), PorC.ContainsPoint(p), want), rep(p, "PolygonFromOrientedLoops"))
 		}
 		if withT && pi < 24 {
 			t := newTable(in)
@@ -933,6 +1017,50 @@ func runPolygon(c *vkit.Collector, rng *vkit.Rng, k int, withT bool) {
 		c.Check(fmt.Sprintf("polygon#%d loops=%v", k, ns), zcase(vkit.App("check_polygon", vkit.List(ls), vkit.List(probeTerms))))
 	}
 	c.Sample(map[string]interface{}{"type": "polygon", "loop_sizes": ns, "probes": len(probes), "index_cells": len(cells)})
+}
+
+// [T] Polygon.Invert against the model's premise: the loops of the result are the loops of the
+// polygon with exactly one of them inverted (polygon_invert_complement then says: complement)
+func runPolygonInvertT(c *vkit.Collector, k int, P, Pinv *s2.Polygon) {
+	in := newInterner()
+	term := func(Q *s2.Polygon, depth bool) string {
+		var ls []string
+		for j := 0; j < Q.NumLoops(); j++ {
+			l := Q.Loop(j)
+			if depth {
+				ls = append(ls, fmt.Sprintf("(%s, %s, %s)", idList(in, l.Vertices()), vkit.B(l.ContainsOrigin()), zs(int64(l.VerifC04Depth()))))
+			} else {
+				ls = append(ls, fmt.Sprintf("(%s, %s)", idList(in, l.Vertices()), vkit.B(l.ContainsOrigin())))
+			}
+		}
+		return vkit.List(ls)
+	}
+	c.Check(fmt.Sprintf("Polygon.Invert#%d loops=%d", k, P.NumLoops()), zcase(vkit.App("check_polygon_invert", term(P, false), term(Pinv, false))))
+	// full layout: which loop was inverted is read off the result (its first loop)
+	best := -1
+	if Pinv.NumLoops() > 0 {
+		first := Pinv.Loop(0).Vertices()
+		for j := 0; j < P.NumLoops(); j++ {
+			v := reversed(P.Loop(j).Vertices())
+			if len(v) == len(first) {
+				same := true
+				for i := range v {
+					if v[i] != first[i] {
+						same = false
+					}
+				}
+				if same {
+					best = j
+				}
+			}
+		}
+	}
+	if best >= 0 {
+		c.Check(fmt.Sprintf("Polygon.Invert.layout#%d loops=%d best=%d", k, P.NumLoops(), best),
+			zcase(vkit.App("check_polygon_invert_layout", term(P, true), nat(best), term(Pinv, true))))
+	} else {
+		c.Violate("Polygon.Invert.layout", "the first loop of Invert()'s result is not the reversal of a loop of the polygon", map[string]interface{}{"type": "polygon-invert", "k": k})
+	}
 }
 
 // ---------- tilings ----------
